@@ -533,3 +533,49 @@ def r_placeholder(cx):
           "the placeholder for a missing inverse (%s) writes nothing and returns 0" % target if ok else
           "the placeholder for a missing inverse is not inert: %s" % why, where)
     cx.count("R-PLACEHOLDER", "placeholders", 1 if target else 0)
+
+
+# ---------------------------------------------------------------------------------------------------------------------
+# R-MODE-FLAG-USED (C01, C05, C13): a mode the constructor detects is a mode the operator handles
+
+@rule("R-MODE-FLAG-USED", ["C01", "C05", "C13"])
+def r_mode_flag_used(cx):
+    """A flag that an operator's constructor itself inserts into the flag table (an aspect or mode it has detected
+    from the parameters: laea's north_polar / south_polar / oblique, helmert's rotated / dynamic ...) is consulted by
+    the operator's functions. A detected mode that nothing reads is a mode that is silently computed by the formulas
+    of another one."""
+    reg = cx.registry()
+    n = 0
+    for cpath, c in sorted(reg.ctors.items()):
+        mod = cpath.rsplit("::", 1)[0] + "::"
+        fns = [g for g in reg.reachable_from([cpath], follow_virtual=False) if g.startswith(mod)]
+        ins = {}
+        for g in fns:
+            f = cx.f.fn(g)
+            for bb, t in f.calls():
+                if (f.callee(t) or "").endswith("BTreeSet::<T, A>::insert"):
+                    a = f.arg_terms(bb)
+                    k = K._const_key(a[1]) if len(a) > 1 else None
+                    if k:
+                        ins[k] = (f, bb)
+        if not ins:
+            continue
+        reads = set()
+        for g in fns:
+            f = cx.f.fn(g)
+            for bb, t in f.calls():
+                if (f.callee(t) or "") == K.PP + "::boolean":
+                    reads.add(K._const_key(f.arg_terms(bb)[1]))
+                if (f.callee(t) or "").endswith("BTreeSet::<T, A>::contains"):
+                    a = f.arg_terms(bb)
+                    if len(a) > 1:
+                        reads.add(K._const_key(a[1]))
+        for k, (f, bb) in sorted(ins.items()):
+            n += 1
+            ok = k in reads
+            cx.ob("R-MODE-FLAG-USED", "%s/%s" % (c.names[0], k), ok,
+                  "%s: the mode flag `%s` set by the constructor is consulted by the operator" % (c.names[0], k) if ok else
+                  "%s: the constructor detects the mode `%s` and records it, but no function of the operator ever "
+                  "consults it: that case is computed by the formulas of another mode" % (c.names[0], k),
+                  cx.where(f.term(bb)["span"]))
+    cx.count("R-MODE-FLAG-USED", "flags", n)
